@@ -29,8 +29,51 @@ def mk_array(i, body, name='arr'):
     if CTX.depth > 0:
         return z3.Lambda([i], body)
     b = z3.Const(fresh_name(name), z3.ArraySort(z3.IntSort(), body.sort()))
-    CTX.pending.append(z3.ForAll([i], b[i] == body, patterns=[b[i]]))
+    # triggers: the new array's own element, and (alternatively) every element A[i] of an existing array the definition
+    # reads at the same index — so that a fact about A[k] also brings in the definition of b[k]
+    pats = [b[i]]
+    seen, stack = set(), [body]
+    while stack:
+        t = stack.pop()
+        if t.get_id() in seen or not z3.is_app(t):
+            continue
+        seen.add(t.get_id())
+        if t.decl().kind() == z3.Z3_OP_SELECT and t.arg(1).eq(i) and _plain_array(t.arg(0)):
+            pats.append(t)
+        stack.extend(t.children())
+    CTX.pending.append(z3.ForAll([i], b[i] == body, patterns=pats[:4]))
     return b
+
+
+def _mentions_var(term, v):
+    seen, stack = set(), [term]
+    while stack:
+        t = stack.pop()
+        if t.get_id() in seen:
+            continue
+        seen.add(t.get_id())
+        if t.eq(v):
+            return True
+        if z3.is_app(t):
+            stack.extend(t.children())
+    return False
+
+
+def _plain_array(term):
+    """Built from constants, selects and datatype accessors only (usable inside a trigger)."""
+    ok = (z3.Z3_OP_UNINTERPRETED, z3.Z3_OP_SELECT, z3.Z3_OP_DT_ACCESSOR, z3.Z3_OP_ANUM)
+    seen, stack = set(), [term]
+    while stack:
+        t = stack.pop()
+        if t.get_id() in seen:
+            continue
+        seen.add(t.get_id())
+        if not z3.is_app(t) or z3.is_var(t):
+            return False
+        if t.decl().kind() not in ok and not z3.is_int_value(t):
+            return False
+        stack.extend(t.children())
+    return True
 
 
 class Unsupported(Exception):
